@@ -366,6 +366,15 @@ def eval_convex(ctx, case, v, T, tag):
         i_simp = [canon(s) for s in p.simplices]
         if m_simp != i_simp:
             ctx.disagree("st.sort_simplices", case, [m_simp[:4], i_simp[:4]])
+        # hypotheses of `propagation_orients_all` on this instance: the traversal empties its stack
+        # within the fuel and reaches every simplex / face (connected neighbour graph)
+        for what, FF, NN in (("hull simplices", hull["simplices"], hull["neighbors"]), ("faces", faces, p.neighbors)):
+            r = Tok(drv.F("st.propagate", LF(FF), LF(NN)))
+            r.faces()
+            visited = set(r.faces()[0])
+            if not (r.one() and visited == set(range(len(FF)))):
+                ctx.contract_failures.append({"contract": "traversal reaches every face with an empty stack",
+                                              "on": what, "visited": len(visited), "n": len(FF)})
     try:
         r = Tok(drv.F("st.neighbors", LF(faces)))
         m_nb = r.faces()
